@@ -1,6 +1,7 @@
 package main
 
 import (
+	"regexp"
 	"encoding/json"
 	"fmt"
 	"os"
@@ -22,7 +23,7 @@ type Mutant struct {
 	File string // path relative to the repository
 	Old  string
 	New  string
-	Nth  int    // 0: Old must be unique; k>0: replace the k-th occurrence
+	Nth  int    // 0: Old must be unique; k>0: replace the k-th occurrence; -1: replace every occurrence; -2: every whole-word occurrence (identifier renames)
 	More []Edit // further unique replacements in the same file
 	// Benign marks a behaviour-preserving edit: no check may report anything new on it.
 	Benign bool
@@ -46,7 +47,14 @@ func mutantOverlay(repo, name string) (map[string][]byte, error) {
 		if n == 0 {
 			return nil, fmt.Errorf("mutant %s: context not found in %s", name, m.File)
 		}
-		if m.Nth == 0 {
+		if m.Nth == -2 {
+			// rename of an identifier: every whole-word occurrence
+			re := regexp.MustCompile(`\b` + regexp.QuoteMeta(m.Old) + `\b`)
+			s = re.ReplaceAllString(s, m.New)
+		} else if m.Nth < 0 {
+			// rename-style edit: every occurrence
+			s = strings.ReplaceAll(s, m.Old, m.New)
+		} else if m.Nth == 0 {
 			if n != 1 {
 				return nil, fmt.Errorf("mutant %s: context occurs %d times in %s", name, n, m.File)
 			}
